@@ -81,7 +81,6 @@ func (fr *frame) get(key ssa.Value) value {
 	panic(fmt.Sprintf("get: no value for %T: %v", key, key.Name()))
 }
 
-
 // runDefer runs a deferred call d.
 // It always returns normally, but may set or clear fr.panic.
 func (fr *frame) runDefer(d *deferred) {
@@ -410,6 +409,18 @@ func callSSA(i *interpreter, caller *frame, callpos token.Pos, fn *ssa.Function,
 		if ext := i.lookupExternal(fn, name); ext != nil {
 			return ext(fr, args)
 		}
+		if liftable[name] && i.lifting == 0 {
+			if len(args) == 1 {
+				if sv, ok := args[0].(sym); ok {
+					if r, ok := i.liftPure(fr, fn, sv); ok {
+						return r
+					}
+				}
+			}
+			if r, ok := i.liftPureStr(fr, fn, args); ok {
+				return r
+			}
+		}
 		if fn.Blocks == nil {
 			if fn.Pkg != nil {
 				fn.Pkg.Build()
@@ -514,6 +525,20 @@ func executePhis(fr *frame) []ssa.Instruction {
 		}
 	}
 	return nonPhis
+}
+
+// liftable lists pure functions of one integer argument that are evaluated
+// row-wise on finite-domain values (DESIGN.md 3.2).
+var liftable = map[string]bool{
+	"(github.com/ajitpratap0/GoSQLX/pkg/models.TokenType).String":   true,
+	"github.com/ajitpratap0/GoSQLX/pkg/errors.SuggestKeyword":       true,
+	"github.com/ajitpratap0/GoSQLX/pkg/errors.GenerateHint":         true,
+	"github.com/ajitpratap0/GoSQLX/pkg/sql/ast.escapeStringLiteral": true,
+	"github.com/ajitpratap0/GoSQLX/pkg/sql/ast.safeIdentifier":      true,
+}
+
+func callSSAraw(i *interpreter, caller *frame, fn *ssa.Function, args []value) value {
+	return callSSA(i, caller, 0, fn, args, nil)
 }
 
 // engineBug marks a host-side failure that must not be mistaken for a target panic.
